@@ -894,3 +894,69 @@ FROZEN_GENERIC = {
     "hwloc_get_sysfs_node_meminfo": "same as hwloc_get_machine_meminfo",
     "hwloc_linux_cpukinds_add": "append: sets[nr_sets] is written after the array was grown when nr_sets == nr_sets_allocated",
 }
+
+
+def run_compact(chk, P, units=None, rule="R-COMPACT"):
+    """in-place compaction moves elements DOWN: for memcpy/memmove(&A[x], &A[y], one element) between two elements of the same array,
+    the zone state at the call must not prove y <= x while it cannot prove x <= y (a copy of a lower element over a higher one
+    overwrites the survivor with the entry that was just dropped).  Calls whose index order the domain cannot establish are counted
+    as out of scope."""
+    n = 0
+    for f in P.all_funcs():
+        if units is not None and os.path.basename(f.file) not in units:
+            continue
+        if f.entry is None:
+            continue
+        sites = []
+        for c in f.calls(("memcpy", "memmove")):
+            a = args(c)
+            if len(a) != 3:
+                continue
+            d0, s0 = strip(a[0]), strip(a[1])
+            if not (d0["k"] == "Unary" and d0["op"] == "&" and s0["k"] == "Unary" and s0["op"] == "&"):
+                continue
+            de, se = strip(d0["c"][0]), strip(s0["c"][0])
+            if de["k"] != "Sub" or se["k"] != "Sub" or lv(de["c"][0]) is None or lv(de["c"][0]) != lv(se["c"][0]):
+                continue
+            single = strip(a[2])["k"] == "SizeOf"      # exactly one element: a range move (memmove up to make room) is another idiom
+            sites.append((c, de["c"][1], se["c"][1], lv(de["c"][0]), single))
+        if not sites:
+            continue
+        try:
+            z = ZoneFlow(f, set(), False, specs={}, resizers={})
+            z.run()
+        except AnalysisBroken:
+            continue
+        k = 0
+        for (c, di, si, arr, single) in sites:
+            k += 1
+            b = f.elem_block.get(c["id"])
+            if b is None:
+                continue
+            # state just before the call: re-run the block up to the element
+            st = z.inb.get(b[0])
+            if not st:
+                continue
+            for e in f.blocks[b[0]]["e"][:b[1]]:
+                st = z.elem(st, f.nodes[e], False)
+            fd, fs = lin(f, di), lin(f, si)
+            verdicts = []
+            for d in st:
+                if d.bot or fd is None or fs is None:
+                    continue
+                td, ts = simplify(d, fd), simplify(d, fs)
+                if td is None or ts is None:
+                    verdicts.append("unknown")
+                    continue
+                down = d.get(td[0], ts[0]) + td[1] - ts[1] <= 0      # dst - src <= 0
+                up = d.get(ts[0], td[0]) + ts[1] - td[1] <= 0        # src - dst <= 0
+                verdicts.append("down" if down else ("up" if up else "unknown"))
+            n += 1
+            if verdicts and all(v == "down" for v in verdicts):
+                chk.inst(rule, f, "move:%s#%d" % (arr, k), True, "memcpy(&%s[%s], &%s[%s]): destination index <= source index on every path (moves an element down)" % (arr, src(strip(di)), arr, src(strip(si))), loc=f.loc(c))
+            elif single and verdicts and any(v == "up" for v in verdicts) and not any(v == "down" for v in verdicts):
+                chk.inst(rule, f, "move:%s#%d" % (arr, k), False, "memcpy(&%s[%s], &%s[%s]) inside a compaction copies a LOWER element over a higher one (source index <= destination index is provable, the converse is not): "
+                         "the surviving entry is overwritten by the one that was just dropped" % (arr, src(strip(di)), arr, src(strip(si))), loc=f.loc(c))
+            else:
+                chk.inst(rule, f, "move:%s#%d" % (arr, k), True, "index order not established by the domain (%s): out of scope" % verdicts, loc=f.loc(c), nontrivial=False, info=True)
+    return n
